@@ -106,8 +106,22 @@ def r2(ctx):
         a = u(lp.target) if lp is not None else "?"
         universe = util.single_def(fgf.node, it) if lp is not None and isinstance(lp.iter, ast.Name) else None
         from_genotype = universe is not None and isinstance(universe, ast.SetComp) and u(universe.generators[0].iter) == "genotypes[pos]"
-        adds = [c for c in ctx.prog.calls_in(fgf.node) if u(c.func) == "%s.add" % it and c.args and u(c.args[0]) == "h[pos]"]
-        from_haps = len(adds) == 1 and isinstance(util.stmt_of(adds[0]).parent, ast.For) and u(util.stmt_of(adds[0]).parent.iter) == "haplotypes"
+        def allele_on_haplotype(call):
+            """the added value is the allele of one haplotype at pos, for every haplotype"""
+            lp_ = util.stmt_of(call).parent
+            if not (isinstance(lp_, ast.For) and call.args):
+                return False
+            a_ = u(call.args[0])
+            if u(lp_.iter) == "haplotypes" and a_ == "%s[pos]" % u(lp_.target):
+                return True
+            src_ = util.single_def(fgf.node, lp_.iter.id) if isinstance(lp_.iter, ast.Name) else lp_.iter
+            if a_ == u(lp_.target) and isinstance(src_, (ast.ListComp, ast.GeneratorExp)) and len(src_.generators) == 1 and not src_.generators[0].ifs:
+                g_ = src_.generators[0]
+                return (u(g_.iter) == "haplotypes" and u(src_.elt) == "%s[pos]" % u(g_.target)) or (u(g_.iter) == "range(len(haplotypes))" and u(src_.elt) == "haplotypes[%s][pos]" % u(g_.target))
+            return False
+
+        adds = [c for c in ctx.prog.calls_in(fgf.node) if u(c.func) == "%s.add" % it and c.args]
+        from_haps = len(adds) == 1 and allele_on_haplotype(adds[0])
         zero = any(isinstance(s_, ast.Assign) and u(s_.targets[0]) == "genotypes[pos][%s]" % a and u(s_.value) == "0" and ("%s in genotypes[pos]" % a, False) in guard_atoms(fcfg, fcfg.node_of(s_)) for s_ in ast.walk(lp)) if lp is not None else False
         okd = from_genotype and from_haps and zero and u(diffs[0].value) == "present[%s] - genotypes[pos][%s]" % (a, a)
         why = "the allele universe is %s (genotype alleles: %s, alleles present on haplotypes: %s, absent alleles counted as multiplicity 0: %s)" % (it, from_genotype, from_haps, zero)
@@ -125,7 +139,8 @@ def r2(ctx):
     ctx.ob(pb.qual, "singleton-block-from-genotype", ok, pb.loc(), "a one-variant block takes each allele a exactly g[a] times from the genotype" if ok else "singleton shortcut no longer builds haplotypes as g[a] copies of each allele a")
     sg = util.single_def(pb.node, "subgeno")
     sh = util.single_def(pb.node, "subhaps")
-    ok = sg is not None and u(sg) == "[{a: h.count(a) for a in h} for h in subhaps]" and sh is not None and u(sh) == "[[haplotypes[i][pos] for i in thread_set] for pos in snps]"
+    sg_forms = ("[{a: h.count(a) for a in h} for h in subhaps]", "[dict(Counter(h)) for h in subhaps]", "[Counter(h) for h in subhaps]", "[dict(collections.Counter(h)) for h in subhaps]")
+    ok = sg is not None and u(sg) in sg_forms and sh is not None and u(sh) == "[[haplotypes[i][pos] for i in thread_set] for pos in snps]"
     ctx.ob(pb.qual, "subinstance-genotype-is-parents-column", ok, pb.loc(), "a sub-instance's genotype is the allele count of the parent haplotypes' column" if ok else "subgeno/subhaps definitions changed")
     # genotype dictionaries = allele counts of the input genotype
     cg = ctx.func("whatshap.polyphase.create_genotype_list")
